@@ -25,11 +25,28 @@ var LockHook func(task *Task, kind int, addr uint64)
 
 //go:norace
 func LockEvent(kind int, addr uint64) {
-	if S == nil || LockHook == nil {
+	if S == nil {
 		return
 	}
 	if S.cur.killed {
 		return
 	}
-	LockHook(S.cur, kind, addr)
+	t := S.cur
+	switch kind {
+	case 0:
+		t.wantsLock, t.wants = addr, true
+	case 1:
+		t.wants = false
+		t.heldLocks = append(t.heldLocks, addr)
+	case 2:
+		for i, h := range t.heldLocks {
+			if h == addr {
+				t.heldLocks = append(t.heldLocks[:i:i], t.heldLocks[i+1:]...)
+				break
+			}
+		}
+	}
+	if LockHook != nil {
+		LockHook(S.cur, kind, addr)
+	}
 }
